@@ -114,6 +114,8 @@ def obligations(tier):
     for (n,) in SP.chains(1):
         small = SP.inspects([n])
         kk = kA if not small else (3 if q else 4)
+        if n == "collect":
+            kk = 4
         obls.append(_obl("A/%s/k=%d" % (n, kk), {"template": "chain", "units": [n], "small": small},
                          kk, B, flush=(n == "collect")))
     # a key re-seen inside an open batch with another key in between needs n >= 3 and 4 elements
